@@ -99,6 +99,7 @@ def _at_or_below(i, j):
 APEX = 1  # the table is sorted canonically: the apex (no labels) is first
 
 SIG_F34 = "F34:apex-flagged-delegation-when-origin-learned-in-first-transaction"
+SIG_F43 = "F43:cname-stored-at-delegation-evicts-NS-but-delegation-state-kept"
 SIG_A = "F12a:non-NS-write-at-delegation-drops-flag"
 SIG_A2 = "F12a:delete-node-after-dropped-flag-leaves-stale-delegation"
 SIG_B_KEPT = "F12b:nested-cuts:inner-cut-kept-in-index"
@@ -125,6 +126,7 @@ def explain(tr, items):
             if ev[k]["op"] == "load":
                 start = k
         ever_ns, dropped, deleted = set(), set(), set()
+        cname_over, pend_cn, txn_ns = set(), set(), set()  # F43: a CNAME stored at a name that was a delegation
         cur_delegs, prev_delegs, pend_drop, pend_del = [], [], set(), set()
         nested_seen = False
         for k in range(start, line):
@@ -132,15 +134,28 @@ def explain(tr, items):
             op = e["op"]
             if op == "load":
                 ever_ns |= {r[0] for r in e["recs"] if r[1] == "NS"}
+                seen_ns = set()
+                for r in e["recs"]:
+                    if r[1] == "NS":
+                        seen_ns.add(r[0])
+                    elif r[1] == "CNAME" and r[0] in seen_ns:
+                        cname_over.add(r[0])
             elif op == "begin":
                 prev_delegs, pend_drop, pend_del = list(cur_delegs), set(), set()
+                pend_cn, txn_ns = set(), set()
             elif op in ("put", "add") and e["type"] == "NS":
                 ever_ns.add(e["name"])
             if op in ("put", "add", "delrd", "delrds") and e["type"] != "NS" and e["name"] in prev_delegs:
                 pend_drop.add(e["name"])
             if op == "delnode" and (e["name"] in pend_drop or e["name"] in dropped):
                 pend_del.add(e["name"])
+            if op in ("put", "add") and e["type"] == "NS":
+                txn_ns.add(e["name"])
+            if op in ("put", "add") and e["type"] == "CNAME" and (e["name"] in prev_delegs or e["name"] in txn_ns
+                                                                     or e["name"] in ever_ns):
+                pend_cn.add(e["name"])
             if op == "end" and e["how"] == "commit":
+                cname_over |= pend_cn
                 dropped |= pend_drop
                 deleted |= pend_del
             if "obs" in e:
@@ -148,7 +163,7 @@ def explain(tr, items):
                 # the index has really been observed holding an entry beneath another entry
                 nested_seen = nested_seen or any(_below(a, b) for a in cur_delegs for b in cur_delegs)
         outer = {m for m in ever_ns if m != APEX and any(_below(n, m) for n in ever_ns)}
-        cache[line] = (ever_ns, dropped, deleted, outer, nested_seen)
+        cache[line] = (ever_ns, dropped, deleted, outer, nested_seen, cname_over)
         return cache[line]
 
     # F34: zone created without an origin (not relativized), origin learned in the first transaction,
@@ -158,16 +173,19 @@ def explain(tr, items):
                       and not dict((f[0], f[1]) for f in first["obs"]["flags"]).get(APEX, 0) & 1)
     # delegation-index entries that are stale because the node was deleted after its flag was dropped
     stale = {}
+    stale_cn = {}  # index entries left behind by a CNAME that evicted the NS rdataset (F43)
     missing = {}
     for it in items:
         if it[1] == "deleg-extra" and it[2] in context(it[0])[2]:
             stale.setdefault(it[0], set()).add(it[2])
+        if it[1] == "deleg-extra" and it[2] in context(it[0])[5]:
+            stale_cn.setdefault(it[0], set()).add(it[2])
         if it[1] == "deleg-missing" or (it[1] == "flag" and it[3] & 2 and not it[4] & 2):
             missing.setdefault(it[0], set()).add(it[2])  # should be a delegation and is not (fully)
     for it in items:
         line, kind = it[0], it[1]
         obs = ev[line - 1]["obs"]
-        ever_ns, dropped, deleted, outer, nested_seen = context(line)
+        ever_ns, dropped, deleted, outer, nested_seen, cname_over = context(line)
         oflags = dict((f[0], f[1]) for f in obs["flags"])
         odel = set(obs["delegs"])
         names = [x for x in it[2:] if isinstance(x, int)] if kind in ("left", "right", "encloser") else [it[2]]
@@ -177,6 +195,8 @@ def explain(tr, items):
             # everything derived from "is this the origin?" went wrong in the first transaction
             # (and stays wrong until the zone is reloaded)
             why = SIG_F34
+        elif any(_at_or_below(x, n) for n in stale_cn.get(line, ()) for x in names):
+            why = SIG_F43
         elif kind == "encloser" and rel and it[4] == it[2] and it[3] == APEX and it[2] != APEX:
             why = SIG_D
         elif (kind == "left" and it[4] > 0 and oflags.get(it[4], 0) & 4 and it[3] in odel and _below(it[4], it[3])
@@ -202,7 +222,7 @@ KIND_CLAUSE = {"nodes": "Order", "order": "Order", "flag": "Flags", "deleg-missi
                "deleg-extra": "DelegationIndex", "deleg-order": "DelegationIndex", "bounds-exc": "BoundsNoException",
                "left": "BoundsLeft", "right": "BoundsRight", "encloser": "BoundsClosestEncloser",
                "is_equal": "BoundsIsEqual", "is_delegation": "BoundsIsDelegation"}
-PRIORITY = [SIG_F34, SIG_A, SIG_A2, SIG_B_KEPT, SIG_B_PROMO, SIG_B_LOOKUP, SIG_C, SIG_D]
+PRIORITY = [SIG_F34, SIG_F43, SIG_A, SIG_A2, SIG_B_KEPT, SIG_B_PROMO, SIG_B_LOOKUP, SIG_C, SIG_D]
 
 
 def classify(tr, line, clause):
@@ -267,27 +287,36 @@ def run(ctx):
         for tag, recs in (("g1nest", "NestRecs"), ("g1deep", "DeepRecs"), ("g1mix", "MixRecs")):
             add(tag, recs=recs, lens=tset([5]))
         add("g1apex", recs="ApexRecs", lens=tset([5]), prefix="NoPrefix")
+        # a CNAME and other data at the same owners: the load order decides which survives (CNAME
+        # exclusivity of a node), so the same five records give zones with and without a cut at d
+        add("g1cname", recs="CnameRecs", lens=tset([5]))
+        if not quick:
+            add("g1cname2", recs="CnameRecs2", lens=tset([5]))
         if not quick:
             add("g1chain", recs="ChainRecs", lens=tset([5]))
         # G2: every sequence of <= 2 operations, in one or two transactions
         #     (thorough: also from the apex-only zone, which LoadLens = {0} adds)
         add("g2", fixed="FixedNested" if quick else "FixedAll", plans="P_2", names="CoreNames" if quick else "UNames",
             lens=tset([]) if quick else tset([0]))
+        # G2n: the same with NS and CNAME stored / deleted at, above and below cuts (a CNAME stored at a
+        #      delegation point evicts its NS; NS or A stored at a CNAME owner evicts the CNAME)
+        add("g2n", fixed="FixedCname", plans="P_2", names="NoApexCore" if quick else "UNames", lens=tset([]),
+            optypes=tset(["NS", "CNAME"]) if quick else tset(["NS", "A", "CNAME"]), kinds=tset(["put", "delrds"]))
         if not quick:
             # G2b: every sequence of 3 operations, each in its own transaction, nested zones
             add("g2b", fixed="FixedTwo", plans="P_3one", names="CoreNames")
             # G2c: rdata-level operations and rollbacks, two operations
-            add("g2c", fixed="FixedTwo", plans="P_2", names="CoreNames", optypes=tset(["NS", "A"]), rdids=tset([1, 2]),
+            add("g2c", fixed="FixedTwo", plans="P_2", names="CoreNames", optypes=tset(["NS", "A", "CNAME"]), rdids=tset([1, 2]),
                 kinds=tset(["add", "delrd", "delnode"]), ends=tset(["commit", "rollback"]))
         # G3: long seeded histories: all operation kinds, TXT, two rdatas, rollbacks, reloads
         n = 1200 if quick else 30000
         add("g3", sim=(n, 60, ctx.seed + 1), names="UNames" if quick else "WNames", qset="U" if quick else "W",
-            optypes=tset(["NS", "A", "TXT"]), rdids=tset([1, 2]), recs="URecs" if quick else "WRecsOne",
+            optypes=tset(["NS", "A", "TXT", "CNAME"]), rdids=tset([1, 2]), recs="URecs" if quick else "WRecsOne",
             lens=tset([4, 6, 8]), kinds=tset(["put", "add", "delrd", "delrds", "delnode"]), plans="P_sim",
             ends=tset(["commit", "commit", "rollback"]))
         # G4: B-tree restructuring: a big owner universe (every name of the table: up to a dozen sibling
         #     cuts), loads of 10-18 records, many rollbacks; only run with small branching factors
-        add("g4", sim=(500 if quick else 10000, 70, ctx.seed + 11), names="BNames", qset="W", optypes=tset(["NS", "A"]),
+        add("g4", sim=(500 if quick else 10000, 70, ctx.seed + 11), names="BNames", qset="W", optypes=tset(["NS", "A", "CNAME"]),
             rdids=tset([1]), recs="BRecs", lens=tset([10, 14, 18]), kinds=tset(["put", "add", "delrd", "delrds", "delnode"]),
             plans="P_sim", ends=tset(["commit", "rollback"]))
         # G5: the same, systematically: zones loaded in ascending order with 6 .. all names of the table
@@ -298,7 +327,16 @@ def run(ctx):
         D.setup(*table)
         jobs = []
 
+        def cname_conflict(h):
+            # the zone-file reader refuses CNAME and other data at one owner (CNAMEAndOtherData), so such a
+            # load cannot be done through dns.zone.from_text: these histories run only in "origin" mode
+            recs = h[0]["recs"]
+            cn = {r[0] for r in recs if r[1] == "CNAME"}
+            return any(r[0] in cn and r[1] != "CNAME" for r in recs)
+
         def job(h, qset, rel, sp, tag, i, mk, bt):
+            if mk == "learn" and cname_conflict(h):
+                return
             tid = "%s.%d.%s%s%s" % (tag, i, "rel" if rel else "abs", ".learn" if mk == "learn" else "", ".t%d" % bt if bt else "")
             jobs.append((h, qset, rel, sp, tid, mk, bt))
 
